@@ -288,6 +288,13 @@ func (r *Run) self() *Task {
 //
 //go:norace
 func (r *Run) sleepIn(d time.Duration) {
+	if Active() != r {
+		// set-up and clean-up on the root goroutine, a run that has ended or is
+		// being unwound: nobody schedules around a sleeper any more, and one
+		// goroutine waiting for a lock the sleeper holds (not a durable wait)
+		// would keep the bubble's clock from ever reaching the wake-up time
+		return
+	}
 	r.Sleepers.Add(1)
 	time.Sleep(d)
 	r.Sleepers.Add(-1)
